@@ -443,7 +443,10 @@ TrEnd ==
                    \* a panic that no harness-injected panic explains: the parallel run differs from the
                    \* sequential one (C05); if it is a borrow conflict, a sibling caused it (C01)
                    !.c05 = @ /\ WorldOf(e) = world /\ Pans # {},
-                   !.c01 = @ /\ (Pans # {} \/ ~e.borrowpanic)]
+                   !.c01 = @ /\ (Pans # {} \/ ~e.borrowpanic),
+                   \* C04: a dispatch that dies of a panic nobody injected (and that is no borrow conflict - C01's
+                   \* business) has not run every system exactly once
+                   !.c04 = @ /\ (Pans # {} \/ e.borrowpanic)]
   /\ UNCHANGED pvars
 
 (***************************************************************************)
